@@ -31,8 +31,9 @@ global ncommit IntArr     -- mutations -> number of Commit calls (ghost)
 global ncancel IntArr     -- mutations -> number of Cancel calls (ghost)
 global commitok BoolArr   -- mutations -> its last Commit returned nil (ghost)
 global pending Int        -- objects marshalled into a collector that has not been committed yet (ghost)
-global counted Bool       -- Enqueue has counted the object it is about to send (ghost)
-global cnt0 Int           -- scheduledCount just before Enqueue counted the object (ghost)
+global cnt0 Int           -- scheduledCount when Enqueue starts to handle the object (ghost)
+global accepted Bool      -- Enqueue has seen running == true after it had counted the object (ghost)
+global sent Bool          -- Enqueue has published the object on the queue (ghost)
 global storefailed Bool   -- the store has reported an error to the writer (ghost)
 
 -- the object interface: events only. Assumed: an implementation does not reach the collector or the writer
@@ -115,6 +116,9 @@ type BatchedWriter
 
 assume-func github.com/iotaledger/hive.go/runtime/timeutil.CleanupTimer(t)
   ensures true
+-- the replay hook (zz_hook_verif.go) is a scheduling point: it does nothing on behalf of the calling goroutine
+assume-func github.com/iotaledger/hive.go/kvstore.verifEnqueueYield()
+  ensures true
 func KVStore.Batched(s) (r0, err)
   ensures err == nil ==> r0 != nil
 
@@ -134,15 +138,21 @@ func BatchedWriter.StopBatchWriter
   ensures unlocked(bw.startStopMutex) && !aload(bw.running)
   ensures old(aload(bw.running)) ==> sel(sync.wgwaited, addr(bw.writeWg))
 
--- an accepted object is counted before it is published on the queue
+-- an accepted object is counted before the producer decides that the writer is still running, and it is still
+-- counted when it is published on the queue: the writer only leaves after it has seen running == false and then
+-- scheduledCount == 0, so it cannot leave while an accepted object is on its way (it would never be written, and
+-- with a full or unbuffered queue the producer would block forever). A producer that gives up restores the count.
 func BatchedWriter.Enqueue
   opt assume-no-overflow
   requires bw != nil && object != nil && unlocked(bw.startStopMutex)
   modifies everything
-  ghost at entry: counted = false
-  ghost before call Int32.Add: cnt0 = aload(bw.scheduledCount)
-  ghost after call Int32.Add: counted = true
-  ghost before send: assert counted && aload(bw.scheduledCount) == cnt0 + 1
+  ghost at entry: accepted = false
+  ghost at entry: sent = false
+  ghost after call Once.Do: cnt0 = aload(bw.scheduledCount)
+  ghost after call Bool.Load: accepted = result && aload(bw.scheduledCount) == cnt0 + 1
+  ghost before send: assert accepted && aload(bw.scheduledCount) == cnt0 + 1
+  ghost before send: sent = true
+  ensures sent || aload(bw.scheduledCount) == cnt0
 
 -- the lazily started writer: what startBatchWriter needs
 func BatchedWriter.Enqueue$1
